@@ -33,6 +33,62 @@ os.environ.setdefault("HV_SERIAL", "1")
 
 _NODE = None
 
+# F1: link latencies whose float seconds truncate to one nanosecond less (0.0157 s -> 15_699_999 ns).  On /repo
+# without fixes/C05-min-latency-float-truncation.diff a sender that uses the very float it declared on the link is
+# rejected at the barrier; the trigger is not generated unless HV_C05_LIFT=F1 (checking a tree that has the fix).
+LIFT = set(filter(None, os.environ.get("HV_C05_LIFT", "F1").split(",")))   # F1 lifted: the repair is in /repo
+
+
+def trunc_ns(ns: int) -> int:
+    """`int((ns / 1e9) * 1e9)`: the nanoseconds the engine makes of the float seconds `ns / 1e9`
+    (`Duration.from_seconds`, `Instant + float`).  `ns / 1e9` is the double nearest to the decimal."""
+    return int((ns / 1e9) * 1e9)
+
+
+def _classify():
+    up, down = [], []
+    for digits in (1, 2, 3, 4):
+        unit = 10 ** (9 - digits)
+        for n in range(1, min(10 ** digits, 5000)):
+            ns = n * unit
+            x = (ns / 1e9) * 1e9
+            if int(x) < ns:
+                down.append(ns)
+            elif x > ns:
+                up.append(ns)
+    return sorted(set(up)), sorted(set(down))
+
+
+# decimal latencies (1-4 fractional digits of a second) whose product with 1e9 is not an integer in binary
+# floating point: DEC_UP rounds up (0.0041, 0.0079, 0.067, 0.134, ...: truncation gives the decimal back),
+# DEC_DOWN rounds down (0.0157, 0.0163, ...: truncation loses one nanosecond)
+DEC_UP, DEC_DOWN = _classify()
+
+
+def fix_lat(l: int) -> int:
+    """F1: keep declared latencies off the values whose float truncates (unless lifted)"""
+    if "F1" in LIFT:
+        return l
+    while l > 0 and trunc_ns(l) != l:
+        l += 1
+    return l
+
+
+def pick_decimal_lat(rng) -> int:
+    """a declared minimum latency written as a decimal number of seconds with 1-4 fractional digits"""
+    r = rng.random()
+    if r < 0.5 or ("F1" in LIFT and r < 0.75):
+        pool = DEC_DOWN if ("F1" in LIFT and r >= 0.4) else DEC_UP
+        return rng.choice([x for x in pool if x <= 500_000_000])
+    digits = rng.choice([1, 2, 3, 4])
+    unit = 10 ** (9 - digits)
+    return fix_lat(rng.randint(1, min(10 ** digits - 1, 500_000_000 // unit)) * unit)
+
+
+def eff_delay(x) -> int:
+    """delay in ns of a script line `[e, k, d, target, k2]` / `[e, k, d, target, k2, "s"]`"""
+    return trunc_ns(x[2]) if len(x) > 5 else x[2]
+
 
 def _node_class():
     global _NODE
@@ -49,21 +105,25 @@ def _node_class():
             super().__init__(f"e{eid}")
             self.eid = eid
             self.pid = pid
-            self.script = script      # kind -> [(delay_ns, target eid, kind2)]
+            self.script = script      # kind -> [(delay_ns, target eid, kind2, as_float_seconds)]
             self.peers = {}           # public on purpose: validate_partitions walks it
             self.log = []
             self.sent_remote = 0
+            self.xsends = set()       # (time, own partition, destination partition, delay ns) of cross-partition emissions
 
         def handle_event(self, ev):
             t = ev.time.nanoseconds
             k = int(ev.event_type[1:])
             self.log.append((t, k))
             out = []
-            for (d, tgt, k2) in self.script.get(k, ()):
+            for (d, tgt, k2, as_s) in self.script.get(k, ()):
                 peer = self.peers[tgt]
+                # as_s: the way a user writes it — float seconds, the same float the link was declared with
+                when = ev.time + (d / 1e9) if as_s else Instant(t + d)
                 if peer.pid != self.pid:
                     self.sent_remote += 1
-                out.append(Event(time=Instant(t + d), event_type=f"k{k2}", target=peer))
+                    self.xsends.add((t, self.pid, peer.pid, when.nanoseconds - t))
+                out.append(Event(time=when, event_type=f"k{k2}", target=peer))
             return out
 
     _NODE = Node
@@ -116,6 +176,11 @@ class C05(core.Property):
             "whose cross-partition messages take exactly the link minimum (or +1 ns, +w/4, +w/2, +w) with local deliveries at the destination 1 ns before / at / "
             "1 ns after / a fraction of a window after each arrival and on the next window boundary, optional replies; "
             "family invalid: window > min latency, reference without link, delay below min latency. "
+            "decimal minima (35 % of gen / wake cases): min_latency written with 1–4 fractional digits of a second, preferring values whose product with 1e9 is not an "
+            "integer in binary floating point (0.0041, 0.0079, 0.067, 0.134, … round up; the ones that round down, 0.0157, 0.0163, …, only with HV_C05_LIFT=F1), "
+            "several different decimal minima per model, decimal window sizes ≤ the minimum; cross delays given as the *same float seconds* as the link (`time + l/1e9`), "
+            "and the integer-nanosecond neighbours (exactly int(l_float·1e9), +1 ns; −1 ns in family invalid). "
+            "An aborted parallel run is judged (judge-err) on the declared configuration and the cross-partition emissions of the implementation's own sequential run. "
             "search after a disagreement: mutations re-grid instants inside their window, stretch / insert idle gaps (everything after an instant moves by "
             "±1 ns, w/4, w/2, w/2+1, 3w/4, w−1, k·w + off), set cross delays to the exact link minimum, add local deliveries around cross arrivals, "
             "splice a wake-up burst after the last scheduled event. "
@@ -125,7 +190,8 @@ class C05(core.Property):
         "Python threads / the GIL / ThreadPoolExecutor scheduling are not modelled: a partition's window is a function of its own state; "
         "checked only by running max_workers=1 and N, twice each, and requiring identical observables",
         "CPython heapq for ties with equal (time, creation index) across partitions (not compared: same-timestamp order is canonicalised)",
-        "float glue int((w_ns/1e9)*1e9) for the window size (Lean Float = IEEE double), no theorem mentions it",
+        "float glue int((x_ns/1e9)*1e9) (= Duration.from_seconds / Instant + float) for the window size, for the effective minimum latency of a link and for "
+        "script delays given in float seconds (Lean Float = IEEE double), no theorem mentions it",
     ]
     assumptions = [
         "packet_loss = 0 and latency = None on every link (declared loss and latency distributions are outside the property's hypothesis; "
@@ -133,6 +199,8 @@ class C05(core.Property):
         "wall-clock summary fields (speedup, efficiency, barrier overhead) are not compared",
         "handlers in the correspondence runs are stateless scripts; stateful handlers are covered only by the theorems that quantify over arbitrary handler functions",
         "times < 100 s so that the coordinator's float min-latency check (delay_s < min_latency - 1e-12) is exact on the ns grid",
+        "generator restriction F1 (reproduced defect of /repo, fixes/C05-min-latency-float-truncation.{diff,md}): declared latencies whose float seconds truncate to "
+        "one nanosecond less (0.0157 s) are not generated unless HV_C05_LIFT=F1; on such a link /repo rejects a sender that uses the very float it declared",
         "model describes /repo with fixes/C05-window-overshoot.diff and fixes/C05-coordinator-window-end.diff applied",
     ]
     hypotheses = [
@@ -143,6 +211,8 @@ class C05(core.Property):
         "sched_no_time_travel / idle_skip_safe (partitions idle across several windows): SchedOk — every window of the schedule satisfies "
         "b ≤ we ≤ b + w and the coordinator's own checks, every idle skip moves the barrier to an instant not after any pending event "
         "(idle_skip_round_unsafe: rounding to the nearest window instead violates this and loses an event); /repo's loop is the skip-free instance",
+        "valid_config_never_rejected: RespectsMin — every cross-partition emission of the handler goes over a declared link with a delay of at least its "
+        "(effective, integer-nanosecond) minimum; initial heaps owned, outboxes empty; conclusion: the run never ends in RuntimeError",
         "par_eq_seq_partial: EventDetermined (emissions are a function of the delivered event) and Ranked (finite programs)",
     ]
     partial_theorems = {
@@ -177,6 +247,9 @@ class C05(core.Property):
         if family != "indep" and nent >= 2 and len(set(ents)) == 1:
             ents[-1] = (ents[0] + 1) % nparts
         L = rng.choice([1_000_000, 10_000_000, 100_000_000, 7_000_000, 29_000_000, 1_000, 65_000, 3_000_000])
+        decimal = rng.random() < 0.35
+        if decimal:
+            L = pick_decimal_lat(rng)
         links = []
         if family != "indep":
             pairs = [(a, b) for a in range(nparts) for b in range(nparts) if a != b]
@@ -189,13 +262,25 @@ class C05(core.Property):
                     if a != b and (a, b) not in keep and rng.random() < 0.7:
                         keep.append((a, b))
             for (a, b) in keep:
-                links.append([a, b, rng.choice([L, L, L + 1, 2 * L, 3 * L])])
+                links.append([a, b, fix_lat(rng.choice([L, L, L + 1, 2 * L, 3 * L]))])
+            if decimal and rng.random() < 0.5:
+                # several different decimal minima in one model
+                for ln in links:
+                    if rng.random() < 0.5:
+                        ln[2] = max(L, pick_decimal_lat(rng))
         lmin = min((l[2] for l in links), default=L)
         lat = {(a, b): l for a, b, l in links}
         window = None
         if links:
             window = rng.choice([None, lmin, lmin, max(1000, lmin - 1), max(1000, lmin // 2), max(1000, lmin // 3)])
-        w = window if window is not None else lmin
+            if decimal and rng.random() < 0.4:
+                # a window written as a decimal number of seconds (1-4 fractional digits), at most the minimum latency
+                digits = rng.choice([1, 2, 3, 4])
+                unit = 10 ** (9 - digits)
+                while unit > lmin:
+                    unit //= 10
+                window = rng.randint(max(1, lmin // (4 * unit)), lmin // unit) * unit
+        w = trunc_ns(window if window is not None else lmin) or 1
         # end time
         ke = rng.choice([1, 2, 3, 5, 8, 13])
         end = rng.choice([None, ke * w, ke * w + 1, max(1, ke * w - 1), ke * w + w // 2, 1_001_000_000 if w >= 10_000_000 else 65_000])
@@ -211,10 +296,15 @@ class C05(core.Property):
             return rng.choice([0, 0, 1, 1, 1000 if w > 2000 else 2, w, w - 1, w + 1, lmin, 2 * w, 7 * w, rng.randrange(0, 2 * w + 1)])
 
         def remote_delay(l):
+            """[delay] in ns, or [delay, "s"]: the script passes `delay / 1e9` float seconds to the engine"""
+            if decimal and rng.random() < 0.6:
+                # exactly the declared minimum, written the way a user writes it (the same float that was
+                # given to the link), and the integer-nanosecond neighbours of what that float becomes
+                return rng.choice([[l, "s"], [l, "s"], [l, "s"], [trunc_ns(l)], [trunc_ns(l) + 1], [2 * l, "s"], [l + w, "s"]])
             ch = [l, l, l, l + 1, l + rng.randrange(0, w + 1), 2 * l, l + w, l + 7 * w]
             if family == "idle":
                 ch += [l + 20 * w, l + 40 * w]
-            return rng.choice(ch)
+            return [rng.choice(ch)]
 
         nk = rng.choice([2, 3, 4, 5])
         prog = []
@@ -233,8 +323,8 @@ class C05(core.Property):
                         d = remote_delay(lat[(ents[e], ents[t])])
                     else:
                         t = e if rng.random() < 0.5 else rng.choice(localp)
-                        d = local_delay()
-                    prog.append([e, k, d, t, k2])
+                        d = [local_delay()]
+                    prog.append([e, k, d[0], t, k2] + d[1:])
         init = []
         for _ in range(rng.randint(1, 6)):
             t = boundary_time() if family in ("boundary", "idle") or rng.random() < 0.5 else rng.randrange(0, horizon + 1)
@@ -247,8 +337,8 @@ class C05(core.Property):
             for _ in range(rng.randint(0, 3)):
                 init.append([t0, rng.randrange(nent), 0])
         # end_time exactly on the arrival of a cross-partition event (last-barrier boundary)
-        arrivals = [t + d for (t, e, k) in init for (e2, k2, d, tg, _k3) in prog
-                    if e2 == e and k2 == k and ents[tg] != ents[e]]
+        arrivals = [t + eff_delay(x) for (t, e, k) in init for x in prog
+                    if x[0] == e and x[1] == k and ents[x[3]] != ents[e]]
         if arrivals and rng.random() < (0.4 if family == "boundary" else 0.15):
             end = rng.choice(arrivals) + rng.choice([0, 0, 0, -1, 1])
             if end // max(w, 1) > 3000:
@@ -280,23 +370,27 @@ class C05(core.Property):
         if len(set(ents)) == 1:
             ents[-1] = (ents[0] + 1) % nparts
         L = rng.choice([1_000_000, 10_000_000, 100_000_000, 100_000_000, 7_000_000, 29_000_000, 1_000, 65_000, 3_000_000])
+        decimal = rng.random() < 0.35
+        if decimal:
+            L = pick_decimal_lat(rng)
         used = sorted(set(ents))
         links = []
         for a in used:
             for b in used:
                 if a != b:
-                    links.append([a, b, rng.choice([L, L, L, L + 1, 2 * L, 3 * L])])
+                    links.append([a, b, fix_lat(rng.choice([L, L, L, L + 1, 2 * L, 3 * L]))])
         if all(l[2] != L for l in links):
             links[0][2] = L
         # a few links that touch empty partitions
         for a in range(nparts):
             for b in range(nparts):
                 if a != b and (a not in used or b not in used) and rng.random() < 0.3:
-                    links.append([a, b, rng.choice([L, 2 * L])])
+                    links.append([a, b, fix_lat(rng.choice([L, 2 * L]))])
         lmin = min(l[2] for l in links)
         lat = {(a, b): l for a, b, l in links}
         window = rng.choice([None, None, lmin, lmin, max(1000, lmin - 1), max(1000, (3 * lmin) // 4), max(1000, lmin // 2)])
-        w = window if window is not None else lmin
+        w = trunc_ns(window if window is not None else lmin) or 1
+        as_s = ["s"] if decimal else []      # decimal latencies: senders use the float they declared
         nk = rng.choice([3, 4, 5])
         tick = nk - 1                       # a kind that never emits: purely local deliveries
         prog = []
@@ -309,7 +403,7 @@ class C05(core.Property):
                 t = rng.choice(remote)
                 l = lat[(ents[e], ents[t])]
                 d = rng.choice([l, l, l, l, l + 1, l + w // 4, l + w // 2, l + w])
-                prog.append([e, 0, d, t, rng.randint(1, tick)])
+                prog.append([e, 0, d, t, rng.randint(1, tick)] + (as_s if d == l or rng.random() < 0.5 else []))
             if rng.random() < 0.3:
                 prog.append([e, 0, rng.choice([0, 1, w // 2, w, w - 1]), e, tick])
         # replies / forwarding from the middle kinds (again with the exact minimum latency)
@@ -320,7 +414,8 @@ class C05(core.Property):
                     if remote:
                         t = rng.choice(remote)
                         l = lat[(ents[e], ents[t])]
-                        prog.append([e, k, rng.choice([l, l, l + 1, l + w // 2]), t, rng.randint(k + 1, tick)])
+                        d = rng.choice([l, l, l + 1, l + w // 2])
+                        prog.append([e, k, d, t, rng.randint(k + 1, tick)] + (as_s if d == l else []))
         init = []
         if rng.random() < 0.5:
             init.append([0, rng.randrange(nent), tick])          # something at the start (boot)
@@ -333,7 +428,8 @@ class C05(core.Property):
             for e in rng.sample(senders, rng.randint(1, len(senders))):
                 ge = g + rng.choice([0, 0, 0, 1, w // 4])
                 init.append([ge, e, 0])
-                for (e2, k2, d, t, k3) in prog:
+                for x in prog:
+                    e2, k2, t, d = x[0], x[1], x[3], eff_delay(x)
                     if e2 != e or k2 != 0 or ents[t] == ents[e]:
                         continue
                     arr = ge + d
@@ -357,7 +453,7 @@ class C05(core.Property):
         ents = case["ents"]
         k = rng.random()
         if k < 0.3 and case["links"]:
-            case["window"] = lmin + rng.choice([1, 1000, lmin])          # ValueError
+            case["window"] = lmin + rng.choice([1, 1000, lmin, 100_000])  # ValueError
         elif k < 0.5:
             # reference to an entity in a partition without a link (ValueError) if one exists
             for e in range(nent):
@@ -372,7 +468,7 @@ class C05(core.Property):
                 for t in range(nent):
                     if (ents[e], ents[t]) in lat:
                         l = lat[(ents[e], ents[t])]
-                        case["prog"].insert(0, [e, 0, max(0, l - rng.choice([1, 1, l // 2, l])), t, 1])
+                        case["prog"].insert(0, [e, 0, max(0, trunc_ns(l) - rng.choice([1, 1, l // 2, l])), t, 1])
                         case["init"].insert(0, [rng.choice([0, 1, lmin]), e, 0])
                         return
             case["window"] = lmin + 1
@@ -382,11 +478,12 @@ class C05(core.Property):
         Node = _node_class()
         nent = len(case["ents"])
         scripts = [dict() for _ in range(nent)]
-        for e, k, d, t, k2 in case["prog"]:
-            scripts[e].setdefault(k, []).append((d, t, k2))
+        for x in case["prog"]:
+            e, k, d, t, k2 = x[:5]
+            scripts[e].setdefault(k, []).append((d, t, k2, len(x) > 5))
         nodes = [Node(e, case["ents"][e], scripts[e]) for e in range(nent)]
-        for e, k, d, t, k2 in case["prog"]:
-            nodes[e].peers[t] = nodes[t]
+        for x in case["prog"]:
+            nodes[x[0]].peers[x[3]] = nodes[x[3]]
         return nodes
 
     def run_parallel(self, case, workers):
@@ -438,26 +535,31 @@ class C05(core.Property):
         for t, e, k in case["init"]:
             sim.schedule(Event(time=Instant(t), event_type=f"k{k}", target=nodes[e]))
         sim.run()
-        return [f"seq {n.eid} {_canon(n.log, end)}".rstrip() for n in nodes]
+        xs = sorted({(a, b, d) for n in nodes for (t, a, b, d) in n.xsends if end is None or t <= end})
+        return ([f"seq {n.eid} {_canon(n.log, end)}".rstrip() for n in nodes],
+                [f"xs {a} {b} {d}" for a, b, d in xs])
 
     def run_impl(self, case):
         with warnings.catch_warnings():
             warnings.simplefilter("ignore")
             try:
                 par, tail = self.run_parallel(case, 1)
-            except (ValueError, RuntimeError) as e:
-                return [f"err {type(e).__name__}"]
+            except Exception as e:  # noqa: BLE001 - any abort of the parallel run is an observation
+                # the parallel run was aborted: report what the sequential run of the same model does
+                # (its deliveries and its cross-partition emissions), for the `valid configuration` clause
+                seq, xs = self.run_sequential(case)
+                return [f"err {type(e).__name__}"] + seq + xs
             extra = []
             n = len(case["ents"])
             for rep in range(1, 2 * max(1, case.get("reps", 1))):
                 workers = 1 if rep % 2 == 0 else None
                 try:
                     p2, t2 = self.run_parallel(case, workers)
-                except (ValueError, RuntimeError) as e:
+                except Exception as e:  # noqa: BLE001
                     p2, t2 = [f"err {type(e).__name__}"], []
                 if p2 != par or t2 != tail:
                     extra += [f"rep {rep} " + x for x in p2 + t2]
-            seq = self.run_sequential(case)
+            seq, _xs = self.run_sequential(case)
         return par + seq + tail + extra
 
     # ------------------------------------------------------------------ model / judge
@@ -474,8 +576,15 @@ class C05(core.Property):
         return (f"run {variant} {case['nparts']} {w} {self._t(case['end'])}", body)
 
     def judge_block(self, case, impl_out):
-        if not impl_out or impl_out[0].startswith("IMPL-") or impl_out[0].startswith("err "):
+        if not impl_out or impl_out[0].startswith("IMPL-"):
             return None
+        if impl_out[0].startswith("err "):
+            # aborted parallel run: the Spec decides whether the configuration was inside the hypothesis
+            body = [f"ent {e} {p}" for e, p in enumerate(case["ents"])]
+            body += [f"link {a} {b} {l}" for a, b, l in case["links"]]
+            body += ["emit " + " ".join(map(str, x)) for x in case["prog"]]
+            w = "none" if case["window"] is None else str(case["window"])
+            return (f"judge-err {case['nparts']} {w}", body + list(impl_out))
         return (f"judge {self._t(case['end'])}", list(impl_out))
 
     def nontrivial_key(self, case, impl_out):
@@ -538,16 +647,20 @@ class C05(core.Property):
                 c["init"].append(list(rng.choice(c["init"])))
             elif k < 0.7 and c["prog"]:
                 x = rng.choice(c["prog"])
-                x[2] = x[2] + rng.choice([0, 1, w, 2 * w])
+                x[2:] = [eff_delay(x) + rng.choice([0, 1, w, 2 * w]), x[3], x[4]]
             elif k < 0.8 and c["prog"]:
                 # a cross-partition emit takes exactly the declared minimum
                 rem = [x for x in c["prog"] if (ents[x[0]], ents[x[3]]) in lat]
                 if rem:
                     x = rng.choice(rem)
-                    x[2] = lat[(ents[x[0]], ents[x[3]])] + rng.choice([0, 0, 0, 1])
+                    l = lat[(ents[x[0]], ents[x[3]])]
+                    if rng.random() < 0.5:
+                        x[2:] = [l, x[3], x[4], "s"]          # the declared float itself
+                    else:
+                        x[2:] = [trunc_ns(l) + rng.choice([0, 0, 0, 1]), x[3], x[4]]
             elif k < 0.95 and c["prog"] and c["init"]:
                 # a local delivery at the destination just before / at / after a cross arrival
-                cand = [(t + x[2], x[3]) for (t, e, kk) in c["init"] for x in c["prog"]
+                cand = [(t + eff_delay(x), x[3]) for (t, e, kk) in c["init"] for x in c["prog"]
                         if x[0] == e and x[1] == kk and ents[x[3]] != ents[e]]
                 if cand:
                     arr, tgt = rng.choice(cand)
@@ -569,11 +682,11 @@ class C05(core.Property):
             return
         x = rng.choice(rem)
         if rng.random() < 0.7:
-            x[2] = lat[(ents[x[0]], ents[x[3]])]
+            x[2:] = [trunc_ns(lat[(ents[x[0]], ents[x[3]])]), x[3], x[4]]
         last = max([t for t, _e, _k in c["init"]], default=0)
         g = (last // w + rng.choice([2, 3, 4, 5, 7, 10])) * w + rng.choice(self.grid_offsets(rng, w))
         c["init"].append([g, x[0], x[1]])
-        arr = g + x[2]
+        arr = g + eff_delay(x)
         nxt = (arr // w + 1) * w
         for _ in range(rng.choice([1, 1, 2])):
             dt = rng.choice([1, 1, 2, w // 10 + 1, w // 4, nxt - arr, nxt - arr - 1, rng.randrange(1, w + 1)])
@@ -595,6 +708,8 @@ THEOREMS: list[str] = [
     "HappyModel.C05.idle_window_noop",
     "HappyModel.C05.sched_no_time_travel",
     "HappyModel.C05.idle_skip_round_unsafe",
+    "HappyModel.C05.valid_config_never_rejected",
+    "HappyModel.C05.valid_conf_respects_minimum",
 ]
 C05.theorems = THEOREMS
 PROPERTY = C05()
